@@ -376,9 +376,12 @@ func (txn *Txn) insert(fn func(Row) error, expireAt int64) (uint32, error) {
 	idx := txn.owner.next()
 	txn.bufferFor(rowColumn).PutOperation(commit.Insert, idx)
 
-	// If there was an error during insertion, free the index so it can be re-used
+	// If there was an error during insertion, the row must not come into existence: mark it
+	// as deleted again. The offset stays reserved until the transaction ends (a rollback
+	// releases it, a commit applies insert and delete); giving it back right away would let
+	// another insert obtain it while this transaction still holds an insert marker for it.
 	if err := txn.QueryAt(idx, fn); err != nil {
-		txn.owner.free(idx)
+		txn.deleteAt(idx)
 		return idx, err
 	}
 
